@@ -217,7 +217,16 @@ def runStmt (env : Env) (k : Nat) (st : String) : StepRes :=
               | .err => .obs s!"err@{k}"
               | .panic => .obs "panic"
               | .spin => .obs "spin"
-            | none => .fail s!"unmodelled-method {recv.kind}.{m}"
+            | none =>
+              -- `$w.Len()` of any kind with a size function: the receiver becomes what Len() leaves (stored lengths)
+              match (if m = "Len" then kinds.lookup recv.kind else none) with
+              | some ops =>
+                match ops.lenM recv with
+                | .ok (l, recv') => bind (.ok [V.u16 l]) (setVar env w recv')
+                | .err => .obs s!"err@{k}"
+                | .panic => .obs "panic"
+                | .spin => .obs "spin"
+              | none => .fail s!"unmodelled-method {recv.kind}.{m}"
           | _, _ => .fail "args"
         | _ => .fail "method-syntax"
       | [] => .fail "stmt"
@@ -693,6 +702,23 @@ def pkrwH : Handler := fun args impl =>
     | _, _ => unmodelled
   | _ => unmodelled
 
+/-- `dhcpsz <seed>` (C06): a DHCP message built through the API (options appended in any order, pad / end options anywhere,
+    padding behind an end option): the model's size and encoding of the value the implementation built must agree with the
+    implementation's, and the reported size must be the number of bytes `Read` produces -/
+def dhcpszH : Handler := fun _ impl =>
+  match impl.splitOn " " with
+  | [d, l, h] =>
+    match V.ofText d with
+    | none => { model := "unreadable" }
+    | some dv =>
+      let m := match PDHCP.len dv, PDHCP.readBuf dv with
+        | .ok ml, .ok b => s!"{d} {ml.toNat} {hexOrDash b}"
+        | _, _ => s!"{d} err2"
+      let fails := if h = "err" then [] else
+        if l.toNat? = some (h.length / 2) then [] else [s!"p.DHCP built through the API: reported size {l}, Read produced {h.length / 2} bytes"]
+      { model := m, more := fails.map (fun f => ("C06", f)) }
+  | _ => { model := impl }
+
 /-- `dec` with the totality oracle for the packet-header decoders (C08) -/
 def decH : Handler := fun args impl =>
   let v := dec args impl
@@ -727,7 +753,7 @@ def handlers : List (String × Handler) :=
       match a with
       | kn :: _ :: ln :: _ => if kn.startsWith "p." ∧ (i = "panic" ∨ i = "spin") then { v with more := [("C08", s!"{kn} decoder on {ln} bytes: {i}")] } else v
       | _ => v),
-   ("fn", fn), ("prog", prog), ("api", api), ("apix", apix), ("parse", parseH), ("sw", swH), ("pk", pkH), ("pkrw", pkrwH), ("embed", embedH), ("embedw", embedH),
+   ("fn", fn), ("prog", prog), ("api", api), ("apix", apix), ("parse", parseH), ("sw", swH), ("pk", pkH), ("pkrw", pkrwH), ("dhcpsz", dhcpszH), ("embed", embedH), ("embedw", embedH),
    ("rep", rep), ("rtrip", rtWith false), ("rtparse", rtWith true), ("rtw", rtw), ("scribble", scribble),
    -- literal values: the repeated-call oracle ("same answer every time") applies to any value whatsoever; the
    -- size-vs-bytes part belongs to C06 and is judged on API-built values only
